@@ -14,7 +14,8 @@ git -C /repo apply "$ROOT/$DIR/patch.diff" || { echo "patch does not apply"; exi
 mkdir -p "$ROOT/$DIR/found"
 for ID in "$@"; do
   start=$(date +%s)
-  out=$(scripts/check.sh "$ID" "$TIER" 2>&1); rc=$?
+  out=$(timeout "${TRIAL_TIMEOUT:-1200}" scripts/check.sh "$ID" "$TIER" 2>&1); rc=$?
+  if [ $rc -eq 124 ]; then pkill -f "vh check $ID" 2>/dev/null; pkill -f "vh worker" 2>/dev/null; fi
   dur=$(( $(date +%s) - start ))
   case $rc in
     0) echo "MISSED  $DIR by $ID/$TIER (${dur}s)";;
